@@ -858,6 +858,39 @@ fn sweep_apps(thorough: bool) -> Vec<App> {
             }
         }
     }
+    // runs of a character whose case mapping changes its byte length (one character becoming two or
+    // three, a two-byte letter becoming one byte, ...): 2..64 copies, alone and before a letter — a
+    // mapper that sizes its output from the input length is exercised at every small capacity
+    {
+        let mut changing: Vec<char> = Vec::new();
+        for u in 0x80u32..=0x1ffff {
+            if let Some(c) = char::from_u32(u) {
+                let len = c.len_utf8();
+                let up: usize = c.to_uppercase().map(|x| x.len_utf8()).sum();
+                let lo: usize = c.to_lowercase().map(|x| x.len_utf8()).sum();
+                if up != len || lo != len {
+                    changing.push(c);
+                }
+            }
+        }
+        for (i, c) in changing.iter().enumerate() {
+            // every changing character at a few run lengths; the ones that grow at all of them
+            let grows = c.to_uppercase().count() > 1 || c.to_lowercase().count() > 1;
+            let ks: &[usize] = if grows { &[2, 3, 4, 5, 7, 8, 9, 10, 11, 12, 13, 15, 16, 17, 21, 22, 24, 25, 31, 32, 33, 43, 64] } else { &[2, 8, 9, 16, 17, 33] };
+            for &k in ks {
+                if !thorough && !grows && (i + k) % 3 != 0 {
+                    continue;
+                }
+                let run: String = std::iter::repeat(*c).take(k).collect();
+                for text in [run.clone(), format!("{run}a"), format!("a{run}")] {
+                    let v = RV::Str(text);
+                    for op in [UnOp::Upper, UnOp::Lower] {
+                        apps.push(App::Un(op, v.clone()));
+                    }
+                }
+            }
+        }
+    }
     // decimal remainder across scales: mantissas at the powers of two and ten x scales 0..28, every
     // pair (bringing both to one scale needs up to 190 bits; the result is exact and small)
     {
